@@ -42,6 +42,26 @@ func ipClass(ip net.IP) string {
 	}
 }
 
+// signRecPv: a record of the given identity and sequence number advertising the given protocol versions (nil = no pv entry)
+func signRecPv(key *ecdsa.PrivateKey, ip net.IP, port int, seq uint64, versions []uint8) *enode.Node {
+	var r enr.Record
+	r.Set(enr.IP(ip))
+	r.Set(enr.UDP(uint16(port)))
+	r.Set(portalwire.Tag)
+	if versions != nil {
+		r.Set(pvEntry(versions))
+	}
+	r.SetSeq(seq)
+	if err := enode.SignV4(&r, key); err != nil {
+		panic(err)
+	}
+	n, err := enode.New(enode.ValidSchemes, &r)
+	if err != nil {
+		panic(err)
+	}
+	return n
+}
+
 func signRecPad(key *ecdsa.PrivateKey, ip net.IP, port int, seq uint64, pad int) *enode.Node {
 	for {
 		var r enr.Record
@@ -244,7 +264,17 @@ func runNodesResp(o *Out, r *rand.Rand, thorough bool, _ []string) {
 	}
 	for round := 0; round < rounds; round++ {
 		mn := newMemNet()
-		nd := startNode(mn, r, nodeOpts{ip: net.IP{34, 50, 60, byte(70 + round)}, port: 9100 + round, utpLimit: 10})
+		// every other round the node runs with an allow-list that contains the loopback and LAN ranges and half of the public
+		// addresses: being on the list must not excuse a record from the relay check (or from anything else)
+		restrict := ""
+		if round%2 == 1 {
+			restrict = "127.0.0.0/8,192.168.0.0/16,10.0.0.0/8,34.0.0.0/8,0.0.0.0/2"
+		}
+		var allow *netutil.Netlist
+		if restrict != "" {
+			allow, _ = netutil.ParseNetlist(restrict)
+		}
+		nd := startNode(mn, r, nodeOpts{ip: net.IP{34, 50, 60, byte(70 + round)}, port: 9100 + round, utpLimit: 10, restrict: restrict})
 		senderIPs := []net.IP{{34, 77, 1, 1}, {192, 168, 3, 3}, {127, 0, 0, 9}}
 		for c := 0; c < perRound; c++ {
 			sip := senderIPs[r.Intn(len(senderIPs))]
@@ -301,7 +331,11 @@ func runNodesResp(o *Out, r *rand.Rand, thorough bool, _ []string) {
 						break
 					}
 				}
-				desc = append(desc, fmt.Sprintf("%d:%d:%d:%d:%s:%s:%d", idIdx, signed, dist, n2.UDP(), ipClass(n2.IP()), ipClass(sender.IP()), relay))
+				onList := 1
+				if allow != nil && !allow.Contains(n2.IP()) {
+					onList = 0
+				}
+				desc = append(desc, fmt.Sprintf("%d:%d:%d:%d:%s:%s:%d:%d", idIdx, signed, dist, n2.UDP(), ipClass(n2.IP()), ipClass(sender.IP()), relay, onList))
 			}
 			msg := &portalwire.Nodes{Total: 1, Enrs: recs}
 			body, err := msg.MarshalSSZ()
